@@ -355,7 +355,7 @@ def finish(ctx, verdicts, obs_by_id=None, *, evaluations, rule, nontrivial_keys,
             violations.append(v)
     for sig, (k, vs) in sorted(seen_known.items()):
         print("KNOWN-FINDING: property=%s %s [%s; %d occurrence(s)]" % (ctx.prop, k["what"], sig, len(vs)))
-    outroot = VERIF if (REPO == "/repo" and rid is None) else os.path.join(WORKROOT, "alt")   # never clobber evidence when trying another tree
+    outroot = VERIF if (REPO == "/repo" and rid is None and not os.environ.get("VERIF_NO_EVIDENCE")) else os.path.join(WORKROOT, "alt")   # never clobber evidence when trying another tree
     replay_dir = os.path.join(outroot, "replay")
     shown = {}
     for v in violations:
